@@ -349,13 +349,17 @@ pub struct MultiCase { pub hash_seed: u64, pub wins: Vec<WinSpec>, pub static_bl
     /// 0 = plain multi-window engine; 1 / 2 = cross-window (SDS+) coordinator in Incremental / Naive mode, switched on by rules that derive nothing the blocks can see
     #[serde(default)] pub cross_rules: u8,
     /// the static N-Triples are loaded before this event index (0 = before streaming starts)
-    #[serde(default)] pub static_after: usize }
+    #[serde(default)] pub static_after: usize,
+    /// how the streams are named: 0 `:s<i>`, 1 `<http://e.org/s<i>>`, 2 `<http://host<i>:9000/obs>` (same text after the last ':'), 3 `<urn:plant<i>:temperature>`
+    #[serde(default)] pub stream_naming: u8 }
 pub struct C11;
+fn stream_decl(c: &MultiCase, i: usize) -> String { match c.stream_naming { 1 => format!("<http://e.org/s{}>", i), 2 => format!("<http://host{}:9000/obs>", i), 3 => format!("<urn:plant{}:temperature>", i), _ => format!(":s{}", i) } }
+fn stream_feed(c: &MultiCase, i: usize) -> String { match c.stream_naming { 1 => if i % 2 == 0 { format!("http://e.org/s{}", i) } else { format!("<http://e.org/s{}>", i) }, 2 => format!("http://host{}:9000/obs", i), 3 => format!("urn:plant{}:temperature", i), _ => format!(":s{}", i) } }
 
 struct MultiOut { marks: Vec<usize>, contents: Vec<Vec<(usize, BTreeSet<Fact>)>> }
 fn multi_query(c: &MultiCase) -> String {
     let mut q = String::from("REGISTER RSTREAM <http://out/stream> AS SELECT * ");
-    for (i, w) in c.wins.iter().enumerate() { q.push_str(&format!("FROM NAMED WINDOW :w{} ON :s{} [RANGE {} STEP {}] ", i, i, w.width, w.slide)); }
+    for (i, w) in c.wins.iter().enumerate() { q.push_str(&format!("FROM NAMED WINDOW :w{} ON {} [RANGE {} STEP {}] ", i, stream_decl(c, i), w.width, w.slide)); }
     q.push_str("WHERE { ");
     for (i, w) in c.wins.iter().enumerate() { q.push_str(&format!("WINDOW :w{} {{ {} }} ", i, pats_txt(&w.block))); }
     q.push_str(&pats_txt(&c.static_block));
@@ -395,7 +399,7 @@ fn multi_scenario(c: &MultiCase, mode: OperationMode, out: Arc<Mutex<Vec<Row>>>)
         let cb = sinks[w].lock().unwrap().len();
         probes[w].add_to_window(t.clone(), ts);
         trace(b'P');
-        e.add_to_stream(&format!(":s{}", w), t, ts);
+        e.add_to_stream(&stream_feed(c, w), t, ts);
         let cg = sinks[w].lock().unwrap();
         if cg.len() > cb { contents[w].push((i, cg.last().unwrap().iter().map(|t| names[t].clone()).collect())); }
         marks.push(out.lock().unwrap().len());
@@ -437,7 +441,7 @@ fn judge_row(c: &MultiCase, r: &Row, contents: &[Vec<(usize, BTreeSet<Fact>)>], 
 impl Prop for C11 {
     type Case = MultiCase;
     fn id(&self) -> &'static str { "C11" }
-    fn expected_counters(&self) -> Vec<&'static str> { vec!["fault.shuttle_schedule_executed", "fault.coordinator_timeout_fired", "probe.consumer_rows_interleaved_with_pushes", "probe.static_block_present", "probe.static_block_over_empty_static_store", "probe.static_data_loaded_mid_run", "probe.cross_window_coordinator_path", "probe.cross_window_path_emitted_rows"] }
+    fn expected_counters(&self) -> Vec<&'static str> { vec!["fault.shuttle_schedule_executed", "fault.coordinator_timeout_fired", "probe.consumer_rows_interleaved_with_pushes", "probe.static_block_present", "probe.static_block_over_empty_static_store", "probe.static_data_loaded_mid_run", "probe.cross_window_coordinator_path", "probe.cross_window_path_emitted_rows", "probe.stream_iris_share_their_last_segment", "probe.stream_iris_share_their_last_segment_and_rows_emitted"] }
     fn budget(&self, tier: Tier) -> Budget { match tier { Tier::Quick => Budget { runs: 4000, wall_s: 60, recheck: 20 }, Tier::Thorough => Budget { runs: 250_000, wall_s: 1000, recheck: 60 } } }
     fn hash_seed(&self, c: &MultiCase) -> u64 { c.hash_seed }
     fn gen(&self, seed: u64, _i: u64, tier: Tier) -> MultiCase {
@@ -459,7 +463,7 @@ impl Prop for C11 {
         let ne = 6 + r.usize(20);
         let events = (0..ne).map(|_| { let w = r.usize(n); Ev { gap: r.usize(3), stream: w, s: node(&mut r), p: pred(&mut r, w), o: node(&mut r), advance_ms: if r.chance(1, 4) { r.below(150) } else { 0 } } }).collect();
         let ns = if tier == Tier::Quick { 3 } else { 8 };
-        MultiCase { hash_seed: Rng::sub(seed, "hash").next(), wins, static_block, static_data, policy, start: r.usize(3), events, schedules: (0..ns).map(|i| (sr.next(), i % 2 == 1)).collect(), shared_vocab, cross_rules, static_after: if static_late { 1 + r.usize(ne) } else { 0 } }
+        MultiCase { hash_seed: Rng::sub(seed, "hash").next(), wins, static_block, static_data, policy, start: r.usize(3), events, schedules: (0..ns).map(|i| (sr.next(), i % 2 == 1)).collect(), shared_vocab, cross_rules, static_after: if static_late { 1 + r.usize(ne) } else { 0 }, stream_naming: if cfg.chance(1, 2) { 0 } else { 1 + cfg.below(3) as u8 } }
     }
     fn exec(&self, c: &MultiCase, ctx: &mut Ctx) -> Option<Violation> {
         if c.wins.len() < 2 || c.events.is_empty() || c.wins.iter().any(|w| w.block.is_empty() || w.width == 0 || w.slide == 0) { return None; }
@@ -502,6 +506,7 @@ impl Prop for C11 {
         if deferred.is_some() { return deferred; }
         if c.shared_vocab { ctx.hit("class.windows_share_vocabulary"); } else { ctx.hit("class.disjoint_vocabularies"); }
         if !c.static_block.is_empty() { ctx.hit("probe.static_block_present"); if c.static_data.is_empty() { ctx.hit("probe.static_block_over_empty_static_store"); } if c.static_after > 0 && !c.static_data.is_empty() { ctx.hit("probe.static_data_loaded_mid_run"); } }
+        if c.stream_naming >= 2 { ctx.hit("probe.stream_iris_share_their_last_segment"); if !rows_a.is_empty() { ctx.hit("probe.stream_iris_share_their_last_segment_and_rows_emitted"); } }
         if c.cross_rules > 0 { ctx.hit("probe.cross_window_coordinator_path"); if !rows_a.is_empty() { ctx.hit("probe.cross_window_path_emitted_rows"); } }
         None
     }
@@ -514,6 +519,7 @@ impl Prop for C11 {
         for s in shrink_vec(&c.static_data) { if !s.is_empty() { out.push(MultiCase { static_data: s, ..c.clone() }); } }
         if !matches!(c.policy, Policy::Wait) { out.push(MultiCase { policy: Policy::Wait, ..c.clone() }); }
         if c.cross_rules > 0 { out.push(MultiCase { cross_rules: 0, ..c.clone() }); }
+        if c.stream_naming > 0 { out.push(MultiCase { stream_naming: 0, ..c.clone() }); }
         if c.static_after > 0 { out.push(MultiCase { static_after: 0, ..c.clone() }); }
         for (i, e) in c.events.iter().enumerate() { if e.advance_ms > 0 { let mut ev = c.events.clone(); ev[i].advance_ms = 0; out.push(MultiCase { events: ev, ..c.clone() }); } if e.gap > 0 { let mut ev = c.events.clone(); ev[i].gap = 0; out.push(MultiCase { events: ev, ..c.clone() }); } }
         out
